@@ -524,9 +524,9 @@ int main(int argc, char** argv) {
     std::vector<LCArg> A; for (double la : hl) for (double lo : ho) for (double h : hh) A.push_back({la, lo, h});
     const int depth = T ? 4 : 3;
     ctx.bound("local.history", std::string("E2 BFS over all histories of {construct, Reset} x ") + fmti((long long)A.size()) + " colliding origins (lat " + fmti((long long)hl.size()) + " values incl. both poles x lon " + fmti((long long)ho.size()) +
-              " values incl. lon + 360 k, +-180 x h " + fmti((long long)hh.size()) + " values) up to depth " + fmti(depth) + ", from the default-constructed object, on " + (T ? "WGS84, sphere, prolate f=-1" : "WGS84, prolate f=-1") +
+              " values incl. lon + 360 k, +-180 x h " + fmti((long long)hh.size()) + " values) up to depth " + fmti(depth) + ", from the default-constructed object, on " + (T ? "WGS84, prolate f=-1, oblate f=1/2" : "WGS84, prolate f=-1") +
               "; states de-duplicated on the bits of all private fields; every state compared bit for bit with a freshly constructed object");
-    for (int ei : (T ? std::vector<int>{0, 1, 2} : std::vector<int>{0, 2})) { if (!ctx.take()) continue; check_local_history(ctx, *envs[ei], A, depth); }
+    for (int ei : (T ? std::vector<int>{0, 2, 3} : std::vector<int>{0, 2})) { if (!ctx.take()) continue; check_local_history(ctx, *envs[ei], A, depth); }
   }
   ctx.note("round-off scale: max(|P|, a), enlarged (a) for Reverse by |rho(lat)+h|*|lat|, the displacement represented by a relative eps in the returned latitude, and (b) for Forward by nu e^2/(2(1-e^2 sin^2 lat)), the effect of one rounding in 1 - e^2 sin^2 lat; both terms are below 1.6 max(|P|,a) for WGS84-like ellipsoids and reach 155 a / 50 a at the pole of the f = 0.99 ellipsoid (the documentation claims round-off accuracy for terrestrial ellipsoids and states that e > 1/sqrt(2) was not analysed)");
   ctx.list("not_compared", "tools/CartConvert command line (covered by the text-I/O property C10)");
